@@ -52,7 +52,7 @@ add("C19", E1,
     "Trusted: the independent readers; an event is only judged if a plain BGP session codec of the repo round-trips it (otherwise it is C04's subject and counted unjudged).",
     "runtime monitoring: independent structural decoder + round-trip oracle over generated records (ASan in thorough)")
 add("C07", E2,
-    "Runtime monitor: the real PeerFsm and the real ConnArbiter wrapper driven over a 32-symbol alphabet (2 roles x 16 inputs: connect, acceptable / unacceptable OPENs from the real parser, KEEPALIVE, UPDATE, NOTIFICATIONs, ROUTE-REFRESH, timers, disconnect, admin shutdown, update-sent), exhaustively to depth 4 (quick) / 5 (thorough) for local-id {<,=,>} remote-id x 3 hold-time pairs, plus random histories of length 30-200; a 30-line reference FSM run in lock-step decides path, fsm-error (RFC 6608 subcode), idle, at-most-one and collision (survivor + Cease to the loser through the close channel).",
+    "Runtime monitor: the real PeerFsm and the real ConnArbiter wrapper driven over a 32-symbol alphabet (2 roles x 16 inputs: connect, acceptable / unacceptable OPENs from the real parser, KEEPALIVE, UPDATE, NOTIFICATIONs, ROUTE-REFRESH, timers, disconnect, admin shutdown, update-sent), exhaustively to depth 4 (quick) / 5 (thorough) for local-id {<,=,>} remote-id x 3 hold-time pairs, plus random histories of length 30-200; a 30-line reference FSM run in lock-step decides path, fsm-error (RFC 6608 subcode), idle, at-most-one and collision (survivor + Cease to the loser through the close channel). Real-task part (c07b): real loopback TCP connections of both roles into accept_connection + PeerSession::run for one neighbour, scripted remote ends speaking BGP through the real codec, seeded scheduler-turn timing between the two connections and between teardown and accept; judged at the remote ends and at quiescence: after a collision exactly one connection survives and the loser's remote end reads Cease/collision, at most one connection in OpenConfirm-or-Established, a freed slot accepts a new connection.",
     "Trusted: the reference FSM written from the statement; anything the statement does not demand is counted unjudged.",
     "runtime monitoring: exhaustive bounded input-sequence enumeration against a lock-step reference model")
 add("C08", E2,
